@@ -9,6 +9,7 @@ import (
 	"sort"
 	"strings"
 	"sync"
+	"time"
 )
 
 // Mutant: an in-memory edit of one repository file (applied through packages.Config.Overlay, no copy of the
@@ -34,6 +35,7 @@ func cmdSelftest(args []string) int {
 	repo := fs.String("repo", "/repo", "")
 	verif := fs.String("verif", "/verif", "")
 	par := fs.Int("j", 4, "parallel mutants")
+	budget := fs.Int("budget", 0, "seconds after which no further mutant is started (0 = no limit); skipped mutants are counted in the summary")
 	fs.BoolVar(&selftestReplay, "replay", false, "also replay counterexamples of killed mutants against the (mutated) real code")
 	fs.Parse(args)
 	var props []string
@@ -48,6 +50,8 @@ func cmdSelftest(args []string) int {
 	sort.Strings(props)
 	bad := 0
 	total := 0
+	skipped := 0
+	t0 := time.Now()
 	var mu sync.Mutex
 	for _, prop := range props {
 		files, _ := filepath.Glob(filepath.Join(*verif, "mutants", prop, "*.json"))
@@ -56,8 +60,14 @@ func cmdSelftest(args []string) int {
 		var survived []string
 		var wg sync.WaitGroup
 		sem := make(chan struct{}, *par)
+		propSkipped := 0
 		for _, f := range files {
 			f := f
+			if *budget > 0 && time.Since(t0).Seconds() > float64(*budget) {
+				skipped++
+				propSkipped++
+				continue
+			}
 			wg.Add(1)
 			sem <- struct{}{}
 			go func() {
@@ -81,9 +91,13 @@ func cmdSelftest(args []string) int {
 			}()
 		}
 		wg.Wait()
-		writeJSON(filepath.Join(*verif, "out", "_selftest", prop+".summary.json"), map[string]interface{}{"total": propTotal, "unexpected": propBad, "details": survived})
+		writeJSON(filepath.Join(*verif, "out", "_selftest", prop+".summary.json"), map[string]interface{}{"total": propTotal, "unexpected": propBad, "skipped_time_budget": propSkipped, "details": survived})
 	}
-	fmt.Printf("selftest: %d mutants, %d unexpected\n", total, bad)
+	if skipped > 0 {
+		fmt.Printf("selftest: %d mutants, %d unexpected, %d not run (time budget of %d s)\n", total, bad, skipped, *budget)
+	} else {
+		fmt.Printf("selftest: %d mutants, %d unexpected\n", total, bad)
+	}
 	if bad > 0 {
 		return 1
 	}
